@@ -47,10 +47,11 @@ def linecol(src, off):
 
 
 class Server:
-    def __init__(self, workdir):
+    def __init__(self, workdir, extra_args=()):
         self.proc = None
         self.port = None
         self.dir = workdir
+        self.extra_args = list(extra_args)
 
     def start(self):
         for attempt in range(8):
@@ -61,7 +62,7 @@ class Server:
             pf = os.path.join(self.dir, 'plan.json')
             self.proc = subprocess.Popen(
                 [sut.PYTHON, '-B', '-m', 'yalafi.shell', '--no-config', '--as-server', str(port),
-                 '--lt-command', '/usr/bin/python3 -S %s %s' % (sut.FAKELT, pf)],
+                 '--lt-command', '/usr/bin/python3 -S %s %s' % (sut.FAKELT, pf)] + self.extra_args,
                 cwd=self.dir, env=sut.sub_env(), stdout=subprocess.DEVNULL, stderr=subprocess.DEVNULL)
             for _ in range(100):
                 time.sleep(0.1)
